@@ -682,6 +682,14 @@ func (s *Service) rename(
 	if len(keys) != len(names) {
 		return errors.Wrap(validate.ErrValidation, "keys and names must be the same length")
 	}
+	// A name is required even when name validation is off (create enforces the same
+	// through validateFreeVirtual): the storage engine refuses an empty name, and on the
+	// gateway path it would do so after the metadata row had already been renamed.
+	for i, name := range names {
+		if len(name) == 0 {
+			return validate.PathedError(validate.ErrRequired, fmt.Sprintf("[%d].name", i))
+		}
+	}
 	if *s.cfg.ValidateNames {
 		if err := s.validateChannelNames(ctx, tx, keys, names, false); err != nil {
 			return err
